@@ -5,6 +5,7 @@ from props.c08 import Oracle
 
 ENDINGS = [
     ['dropres'], ['fin'], ['rst'], ['badqpack'], ['malformed'], ['unexpected'],
+    ['toobig'], ['truncfin'], ['truncrst'], ['unknown'],
     ['ok', 'finish', 'drop'], ['ok', 'drop'], ['ok', 'rstafter', 'drop'],
     ['ok', 'split', 'dropsend', 'droprecv'], ['ok', 'finish', 'split', 'droprecv', 'dropsend'],
     ['ok', 'split', 'dropsend'],      # one half kept: the request has NOT ended
@@ -66,15 +67,16 @@ class P(Property):
     gen_modules = ['gen_codes', 'gen_varint', 'gen_goaway']
     properties_v = 'Properties/C09.v'
     model_targets = ['Model/Goaway.vo', 'Model/Ongoing.vo', 'Spec/GoawaySpec.vo', 'Spec/DrainSpec.vo']
+    extra_targets = ['Model/GoawayWrite.vo']
     extract_v = 'Extract/ExtractC09.v'
     driver_ml = 'C09_driver.ml'
     harness_bin = 'c09'
     rule = ('drain: the REAL server::Connection over SimQuic under the deterministic executor (accept task polled only when '
-            'woken; still pending at quiescence = hang). All histories of 0..3 (quick) / 0..4 (thorough) accepted requests x 14 '
-            'life cycles each (resolver dropped, FIN / RESET before HEADERS, QPACK-invalid, malformed, wrong first frame, '
+            'woken; still pending at quiescence = hang). All histories of 0..3 (quick) / 0..4 (thorough) accepted requests x 18 '
+            'life cycles each (resolver dropped, FIN / RESET before HEADERS, QPACK-invalid, malformed, wrong first frame, field section too large (431), FIN / RESET inside the HEADERS frame, transport stream error, '
             'finish+drop, drop, RESET after HEADERS, split with the halves dropped in either order, one half kept, stream kept, '
             'resolver kept) x every arrival/acceptance order of the stream ids for <= 2 requests (thorough <= 3; beyond: stream-id order + one seeded other order) x interleavings of the life cycles x the peer GOAWAY at every position x '
-            'eager / lazy polling, plus the structured family None -> lower-id arrival handed out -> arrival beyond the final GOAWAY refused while it is alive, plus seeded random histories (arrivals after GOAWAY, operations before hand-out, several '
+            'eager / lazy polling, plus a family with flow control closed on the control stream (closing GOAWAY pending, accept task resumed) and transport failure (XU), plus the structured family None -> lower-id arrival handed out -> arrival beyond the final GOAWAY refused while it is alive, plus seeded random histories (arrivals after GOAWAY, operations before hand-out, several '
             'GOAWAYs). Every 5th (thorough: 3rd) case is re-run in a seeded environment variant: default config (grease on), 3 uni-stream credits, other peer uni streams first / type byte pending, chunked control preamble, control stream late. Errors are observed as code + variant + transport close() code. Every implementation trace is judged by the extracted Coq drain monitor. non-trivial = distinct cases in '
             'which at least one request was handed out')
 
@@ -88,7 +90,7 @@ class P(Property):
             ids = [4 * i for i in range(k)]
             perms = list(itertools.permutations(ids))
             for ends in itertools.product(range(len(ENDINGS)), repeat=k):
-                if k == 3 and tier == 'quick' and rng.random() < 0.6:
+                if k == 3 and tier == 'quick' and rng.random() < 0.85:
                     continue
                 lists = [['x%d:%s' % (ids[i], a) for a in ENDINGS[e]] for i, e in enumerate(ends)]
                 lim = (80 if tier != 'quick' else 24) if k <= 2 else (2 if k == 3 else 1)
@@ -135,9 +137,18 @@ class P(Property):
                     for late in (['A0', 'A12', 'P'], ['A0', 'P', 'A12', 'P'], ['A12', 'A0', 'P']):
                         toks = head + late + a2 + ['P', 'A16', 'P']
                         out.append('drain ' + ','.join(toks))
+        # control-stream flow control: the closing GOAWAY of accept() pends, the accept task is resumed after W
+        for e1 in range(len(ENDINGS)):
+            a1 = ['x0:%s' % a for a in ENDINGS[e1]]
+            for pat in (['A0', 'P', 'G0'] + a1 + ['b', 'P', 'P', 'W', 'P', 'P'],
+                        ['b', 'A0', 'P', 'G0', 'P'] + a1 + ['P', 'A4', 'W', 'P', 'P'],
+                        ['A0', 'P'] + a1 + ['b', 'G0', 'P', 'A4', 'P', 'W', 'P', 'A8', 'P'],
+                        ['A0', 'P', 'G0'] + a1 + ['XU', 'P'],
+                        ['A0', 'P', 'XU'] + a1 + ['G0', 'P']):
+                out.append('drain ' + ','.join(pat))
         # seeded random histories
-        acts = ['dropres', 'ok', 'fin', 'rst', 'badqpack', 'malformed', 'unexpected', 'finish', 'rstafter', 'drop', 'split', 'dropsend', 'droprecv']
-        wts = [3, 6, 2, 2, 1, 2, 1, 3, 2, 5, 3, 4, 4]
+        acts = ['dropres', 'ok', 'fin', 'rst', 'badqpack', 'malformed', 'unexpected', 'finish', 'rstafter', 'drop', 'split', 'dropsend', 'droprecv', 'toobig', 'truncfin', 'truncrst', 'unknown']
+        wts = [3, 6, 2, 2, 1, 2, 1, 3, 2, 5, 3, 4, 4, 2, 1, 2, 2]
         for _ in range(6000 if tier == 'quick' else 200000):
             L = rng.randint(4, 30)
             toks, na = [], 0
@@ -153,6 +164,8 @@ class P(Property):
                     toks.append('P')
                 elif r < 0.50:
                     toks.append('G%d' % rng.choice([0, 0, 0, 1, 2]))
+                elif r < 0.53:
+                    toks.append(rng.choice(['b', 'W', 'b', 'W', 'XU']))
                 elif na > 0:
                     toks.append('x%d:%s' % (aids[rng.randrange(na)], rng.choices(acts, wts)[0]))
                 else:
